@@ -133,8 +133,31 @@ func tparams() []tparam {
 	return out
 }
 
+// rejectionSecrets: the published port algorithm draws with rejection sampling (crypto/rand.Int over the seeded
+// stream): a first draw >= range size is discarded and the next one is taken. Roughly 1.6 % (range 1024..65535) and
+// 0.035 % (22..65535) of all secrets take that branch; the alphabet contains one secret per (library version 3 / 4,
+// port range) that does, found by search with the reference implementation below (not with the code under test).
+func rejectionSecrets() [][]byte {
+	var out [][]byte
+	for _, lv := range []uint{3, 4} {
+		for _, lo := range []int64{1024, 22} {
+			for i := 0; i < 2000000; i++ {
+				h := sha256.Sum256([]byte(fmt.Sprintf("c01-rejection-%d-%d-%d", lv, lo, i)))
+				seed, _ := refSeed(h[:], lv)
+				var first [2]byte
+				_, _ = io.ReadFull(hkdf.New(sha256.New, seed, nil, []byte("phantom-select-dst-port")), first[:])
+				if int64(first[0])<<8|int64(first[1]) >= 65535-lo {
+					out = append(out, h[:])
+					break
+				}
+			}
+		}
+	}
+	return out
+}
+
 func fixedSecrets(n int) [][]byte {
-	out := [][]byte{vfix.Secret(-1), vfix.Secret(-2)}
+	out := append([][]byte{vfix.Secret(-1), vfix.Secret(-2)}, rejectionSecrets()...)
 	c := make([]byte, 32)
 	for i := range c {
 		c[i] = byte(i)
@@ -263,11 +286,11 @@ func (c *recConn) SetReadDeadline(time.Time) error  { return nil }
 func (c *recConn) SetWriteDeadline(time.Time) error { return nil }
 
 type view struct {
-	err    string
-	ip     string
-	port   uint16
-	tag    string // hex of identifier / connection tag
-	rndOK  bool
+	err   string
+	ip    string
+	port  uint16
+	tag   string // hex of identifier / connection tag
+	rndOK bool
 }
 
 func (v view) String() string {
@@ -461,9 +484,9 @@ func main() {
 	rm := vfix.Manager(nil, sel, &vfix.Tester{}, vfix.AllWrapping, nil)
 	_ = rm.AddTransport(pb.TransportType_DTLS, &dtls.Transport{})
 	tps := tparams()
-	nfixed := 6
+	nfixed := 10
 	if thorough {
-		nfixed = 12
+		nfixed = 16
 	}
 	secrets := fixedSecrets(nfixed)
 	nseeded := 2
